@@ -73,8 +73,11 @@ def exp_enc(e):
         raise vlib.ToolError("model produced a poisoned value")
     w, i, f = e.split(":")
     v = Fraction(int(i)) + Fraction(int(f), 4) + W[w]
-    if v.denominator != 1 or abs(v) >= 2**53:
-        raise vlib.ToolError(f"unexpected non-integer model result {e}")
+    if float(v) != v:
+        raise vlib.ToolError(f"model result {e} is not an exact double")
+    if v.denominator != 1 or abs(v) >= 2**53:        # the native print shows the bit pattern of such numbers
+        import struct
+        return "n:b:%016X" % struct.unpack(">Q", struct.pack(">d", float(v)))[0]
     return f"n:{v.numerator}"
 
 
@@ -243,6 +246,12 @@ def render_op(op, r):
         call = f"new {CTOR[op['t']]}(V[{op['v'] - 1}])"
     elif k == "fromlist":
         call = f"new {CTOR[op['t']]}({L('vals')})"
+    elif k == "aload":
+        call = f"Atomics.load(V[{op['v'] - 1}],{A('a1')})"
+    elif k == "astore":
+        call = f"Atomics.store(V[{op['v'] - 1}],{A('a1')},{A('val')})"
+    elif k == "aadd":
+        call = f"Atomics.add(V[{op['v'] - 1}],{A('a1')},{A('val')})"
     elif k == "dvget":
         call = f"D[{op['d'] - 1}].get{op['t']}({A('a1')},{'true' if op['le'] else 'false'})"
     elif k == "dvset":
@@ -330,7 +339,7 @@ def op_sig(op):
     return {k: a(v) for k, v in sorted(op.items()) if k not in ("n", "m") or op["k"] in ("get", "set", "fcopy")}
 
 
-CONV_KINDS = {"set", "fill", "setarr", "fromlist", "dvset", "fromta", "setta"}
+CONV_KINDS = {"set", "fill", "setarr", "fromlist", "dvset", "fromta", "setta", "astore", "aadd"}
 
 
 def conversion_signature(rec, views_types, exp_lines, act_lines):
@@ -355,6 +364,8 @@ def conversion_signature(rec, views_types, exp_lines, act_lines):
             if et[:5] != at[:5]:
                 return None
         elif et[0] == "s:R":
+            if k == "astore":
+                continue                   # Atomics.store returns the converted value itself
             if et[1:5] != at[1:5]:
                 return None
         else:
@@ -382,6 +393,8 @@ def conversion_signature(rec, views_types, exp_lines, act_lines):
     else:
         src = "number"
         dst = op["t"] if k in ("fromlist", "dvset") else views_types[op["v"] - 1]
+        if k in ("astore", "aadd") and dst == "Uint8C":
+            return None
         vals = op["vals"] if k in ("setarr", "fromlist") else [op["val"]]
     if dst not in INT_TYPES:
         return None
@@ -594,10 +607,10 @@ class Family:
         meta = {"family": self.name, "su": su, "recs": [c[0] for c in steps], "chain_from": chain_from}
         self.rp.add(meta, [c[1] for c in steps], [c[2] for c in steps])
 
-    def run(self, workers=1, simulate=None, depth=None, tseed=None, coverage=False, timeout=1500):
+    def run(self, workers=1, simulate=None, depth=None, tseed=None, coverage=False, timeout=2400):
         env = {"JAVA_TOOL_OPTIONS": "-XX:ParallelGCThreads=2", "C15_SETUP": self.setup or ""}
         r = vlib.run_tlc(MC, self.cfg, workers=workers, simulate=simulate, depth=depth, tseed=tseed, coverage=coverage,
-                         timeout=timeout, xmx="3g", env_extra=env, on_tagged=self.on_tagged)
+                         timeout=timeout, xmx="4g", env_extra=env, on_tagged=self.on_tagged)
         self.flush()
         self.cache.clear()
         return r
@@ -716,13 +729,14 @@ QUICK = [  # (name, cfg, workers)
     ("G", "MCBuffers_G1.cfg", 2), ("E", "MCBuffers_E1.cfg", 2), ("C", "MCBuffers_C1.cfg", 2), ("O", "MCBuffers_O1.cfg", 1),
     ("X", "MCBuffers_X0.cfg", 1), ("F", "MCBuffers_F1.cfg", 1)]
 THOROUGH = [
-    ("G", "MCBuffers_G3.cfg", 4), ("E", "MCBuffers_E2.cfg", 3), ("C", "MCBuffers_C1.cfg", 2), ("O", "MCBuffers_O2.cfg", 2),
-    ("X", "MCBuffers_X2.cfg", 2), ("F", "MCBuffers_F2.cfg", 2)]
+    ("G", "MCBuffers_G2.cfg", 4), ("E", "MCBuffers_E2.cfg", 3), ("C", "MCBuffers_C1.cfg", 2), ("O", "MCBuffers_O2.cfg", 2),
+    ("X", "MCBuffers_X1.cfg", 2), ("F", "MCBuffers_F2.cfg", 2)]
 SIMULATE = {"quick": (300, 1), "thorough": (1500, 3)}     # (number of random histories, TLC workers)
 KIND_ACTION = {"resize": "Resize", "grow": "Grow", "transfer": "Transfer", "detach": "Detach", "bslice": "BufSlice", "newview": "NewView",
                "newdv": "NewDataView", "get": "GetElem", "set": "SetElem", "fcopy": "FloatCopy", "fill": "Fill", "cw": "CopyWithin",
                "setarr": "SetFromList", "setta": "SetFromTA", "sub": "Subarray", "slice": "Slice", "fromta": "FromTA",
-               "fromlist": "FromList", "dvget": "DvGet", "dvset": "DvSet"}
+               "fromlist": "FromList", "dvget": "DvGet", "dvset": "DvSet", "aload": "AtomicsLoad", "astore": "AtomicsStore",
+               "aadd": "AtomicsAdd"}
 FLOOR = {"quick": 5000, "thorough": 30000}
 
 
